@@ -14,6 +14,27 @@ SH = ["p1_code2", "p1_optint_d", "p1_optbool_f", "p1_int", "p1_int_d", "p1_str_s
 ARGP = [s for s in SH if s in C04.EXPR]
 
 
+def stab_wrap(kind, i, W, sep_tab):
+    """word_wrap ON with the C18 pool of long texts and a symbolic width: the second and third emission are identical"""
+    from harness import C18
+    from lib.domain import emit_kind, parse_kind
+    from harness.rt import _art_eq
+
+    ir = C18.POOL[i]
+    undo = C18._bind(W)
+    try:
+        o = {"word_wrap": True, "emit_default_doc": True, "sep_tab": bool(sep_tab), "indent_level": 1}
+        x1 = parse_kind(emit_kind(ir, kind, o), kind, o)
+        x1.pop("_internal", None)
+        e2 = emit_kind(x1, kind, o)
+        x2 = parse_kind(e2, kind, o)
+        x2.pop("_internal", None)
+        e3 = emit_kind(x2, kind, o)
+    finally:
+        undo()
+    return _art_eq(e2, e3, kind)
+
+
 def cell_kf(kind, sid):
     """cells whose second/third emissions are known to differ because of a listed finding (whole cell excluded while it is open)"""
     from lib.domain import SHAPES, ABSENT
@@ -52,4 +73,16 @@ def obligations(tier, seed):
                            pl=1 if tier == "quick" else 2, dr=1 if tier == "quick" else 2)
                 ob.skip_kf = list(ob.skip_kf) + cell_kf(kind, sid)
                 obs.append(ob)
+    from lib.ob import Ob
+
+    for kind in ("class", "function", "rest"):
+        for i in (1, 3):
+            for a, b in ((60, 85), (85, 125)):
+                if tier == "quick" and kind == "rest" and a == 60:
+                    continue
+                obs.append(Ob(name="stab_wrap_%s_ir%d_w%d" % (kind, i, a), params=[("W", "int")], pre=["%d <= W < %d" % (a, b)],
+                              body="H.stab_wrap(%r, %d, W, 1)" % (kind, i), witness=(a + 10,),
+                              bounds="word_wrap on, emitter %s, C18 pool IR %d (long summary / prose / type strings), every width %d <= W < %d "
+                              "(symbolic): second and third emission identical" % (kind, i, a, b), timeout=240 if tier == "quick" else 900,
+                              path_timeout=120, funcs=FUNCS))
     return obs
